@@ -765,6 +765,9 @@ class Unit:
 
     def e_CStyleCastExpr(self, n):
         ck = n.get('castKind'); sub = self.kids(n)[-1]
+        if ck == 'ConstructorConversion' and self.models:
+            r = self.models.construct_expr(self, self.strip_tmp(sub)) if self.strip_tmp(sub)['kind'] in ('CXXConstructExpr', 'CXXTemporaryObjectExpr') else None
+            if r is not None: return r
         if ck == 'ToVoid': return '((void)(%s))' % self.expr(sub)
         if ck in ('NoOp', 'LValueToRValue'):
             # still print the cast when the types differ syntactically (e.g. const removal)
